@@ -106,12 +106,10 @@ SimpleFamilyCmds ==
             k \in 1..3, n \in 3..5, m \in {0, 3, 6}}
   \cup {Cmd(<<"randkxor", S(k), S(n), S(m)>>, Call("RandomKXOR", <<I(k), I(n), I(m)>>)) :
             k \in 1..3, n \in 3..5, m \in {0, 2, 3}}
-  \cup {Cmd(<<"randkcnf", "3", S(n), "4", "--plant">>,
-            CallPre(<< Pre("P", "random_total_assignment", <<I(n)>>) >>, "RandomKCNF_planted", <<I(3), I(n), I(4), Ref("P")>>)) :
-            n \in 4..5}
-  \cup {Cmd(<<"randkxor", "2", S(n), "3", "--plant">>,
-            CallPre(<< Pre("P", "random_total_assignment", <<I(n)>>) >>, "RandomKXOR_planted", <<I(2), I(n), I(3), Ref("P")>>)) :
-            n \in 4..5}
+  \* --plant: the command line draws a hidden total assignment and plants it.  Which random numbers it
+  \* consumes for that is not documented, so no library call can be named that yields the very same formula:
+  \* the variant is judged existentially by C13 (JudgeSampler: some total assignment satisfies every clause;
+  \* shape and count as promised), not here.
 
 Charges(kind, n) == CASE kind = "first" -> [v \in 1..n |-> IF v = 1 THEN 1 ELSE 0]
                       [] kind = "zero"  -> [v \in 1..n |-> 0]
